@@ -48,6 +48,13 @@ func (pr *prover) soundLin(t *Term, facts []Atom) *Lin {
 			l.C = n
 			return l
 		}
+		// len(arr[:]) of a full slice of an array (variadic argument lists, slice literals)
+		if sl := t.Sub[0]; sl.K == TSlice && sl.Sub[1] == nil && sl.Sub[2] == nil && sl.Sub[3] == nil {
+			if n, ok := arrayLen(sl.Sub[0].Typ); ok {
+				l.C = n
+				return l
+			}
+		}
 	case TConv:
 		// conversions that cannot change the value were removed by the term builder; the remaining
 		// ones (narrowing, sign change) are exact only with a proven range
